@@ -480,6 +480,7 @@ type lcRacePlan struct {
 	Disk    bool  `json:"disk"`
 	Modes   []int `json:"modes"` // per worker: 0 CreateOrOpen, 2 ReOpenExisting
 	Seed    int64 `json:"seed"`
+	Overlap bool  `json:"overlap,omitempty"` // every other iteration closes its handle from two goroutines at once
 }
 
 // runLcRace executes the plan once and returns the violations it observed.
@@ -552,6 +553,24 @@ func runLcRace(p lcRacePlan) []Deviation {
 				}); pn != "" {
 					bad("race.panic", "probe panicked: %s", pn)
 				}
+				if p.Overlap && it%2 == 0 {
+					// the same handle closed by two goroutines at once: still one release
+					var cw sync.WaitGroup
+					start := make(chan struct{})
+					for k := 0; k < 2; k++ {
+						cw.Add(1)
+						go func() {
+							defer cw.Done()
+							<-start
+							if pn := safely(func() { b.Close(ctx) }); pn != "" {
+								bad("race.panic", "overlapping Close calls on one handle panicked: %s", pn)
+							}
+						}()
+					}
+					close(start)
+					cw.Wait()
+					continue
+				}
 				safely(func() { b.Close(ctx) })
 				if it%2 == 1 {
 					safely(func() { b.Close(ctx) }) // closing twice is allowed
@@ -584,6 +603,23 @@ func runLcRace(p lcRacePlan) []Deviation {
 	wg.Wait()
 	restore()
 	if holder != nil {
+		// every other handle is closed now (some of them twice, some by overlapping calls): the one
+		// that stayed open must still work
+		ds := holder.DefaultDataStore()
+		if ds == nil {
+			bad("race.holder", "the handle that stays open got a nil data store after the others were closed")
+		} else if err := ds.SetRaw("holder", 0, nil, []byte("final")); err != nil {
+			bad("race.holder", "write through the handle that stays open failed after every other handle was closed: %v", err)
+		} else if got, _, err := ds.GetRaw("holder"); err != nil || string(got) != "final" {
+			bad("race.holder", "read through the handle that stays open after every other handle was closed: %q err=%v", got, err)
+		}
+		registered := false
+		for _, n := range rosmar.GetBucketNames() {
+			registered = registered || n == name
+		}
+		if !registered {
+			bad("race.registry", "a handle of %s is still open but the name is no longer registered", name)
+		}
 		holder.Close(ctx)
 	}
 	// quiescence: everything closed
@@ -617,7 +653,7 @@ func runLcRace(p lcRacePlan) []Deviation {
 
 func TestC13Race(t *testing.T) {
 	st := statsFor("C13", "TestC13Race")
-	st.Rule = "concurrent OpenBucket / probe / Close (and repeated Close) loops by 2-6 goroutines on one already-created bucket (memory or disk), optionally next to a handle that stays open, with seeded scheduling noise at the verif hook points; every open must succeed, every probe through a handle the goroutine holds open must succeed, afterwards the registry is empty and a reopen sees every acknowledged write; non-trivial = at least 3 workers and 3 iterations; distinct by plan"
+	st.Rule = "concurrent OpenBucket / probe / Close (and repeated Close, and Close of one handle from two goroutines at once) loops by 2-6 goroutines on one already-created bucket (memory or disk), optionally next to a handle that stays open, with seeded scheduling noise at the verif hook points; every open must succeed, every probe through a handle the goroutine holds open must succeed, afterwards the registry is empty and a reopen sees every acknowledged write; non-trivial = at least 3 workers and 3 iterations; distinct by plan"
 	run := func(p lcRacePlan) []Deviation {
 		var out []Deviation
 		for _, d := range runLcRace(p) {
@@ -655,6 +691,7 @@ func TestC13Race(t *testing.T) {
 			Holder:  rapid.Bool().Draw(rt, "holder"),
 			Disk:    rapid.IntRange(0, 3).Draw(rt, "disk") > 0,
 			Seed:    int64(rapid.IntRange(1, 1<<30).Draw(rt, "seed")),
+			Overlap: chance(rt, 50, "overlap"),
 		}
 		for i := 0; i < p.Workers; i++ {
 			p.Modes = append(p.Modes, pick(rt, []int{0, 2}, "mode"))
